@@ -14,7 +14,7 @@
 (***************************************************************************)
 EXTENDS MailProps, Json, IOUtils, TLCExt
 
-VARIABLES tid, l, view, vvh, agent
+VARIABLES tid, l, view, vvh, agent, fv
 
 Traces == JsonDeserialize(IOEnv.TRACE_FILE)
 
@@ -43,8 +43,10 @@ Init ==
     /\ view = [s \in DOMAIN Traces[tid][1].st.ss |-> <<>>]
     /\ vvh = VvHist(StOf(Traces[tid][1].st), {})
     /\ agent = {}
+    /\ fv = [s \in DOMAIN Traces[tid][1].st.ss |-> {}]
 
 ViewOf(s) == IF s \in DOMAIN view THEN view[s] ELSE <<>>
+FvOf(s) == IF s \in DOMAIN fv THEN fv[s] ELSE {}
 
 Next ==
     /\ l <= Len(Tr)
@@ -55,10 +57,14 @@ Next ==
            c01 == [s \in DOMAIN post.ss |->
                       IF s \in DOMAIN ev.out THEN C01_Step(s, ViewOf(s), ev, post)
                       ELSE [v |-> ViewOf(s), bad |-> {}]]
+           c04f == [s \in DOMAIN post.ss |->
+                      IF s \in DOMAIN ev.out THEN C04_Fv(s, FvOf(s), ev, post)
+                      ELSE [fv |-> FvOf(s), bad |-> {}]]
            dl == SeqToSet(ev.delivered)
            ag2 == {g \in agent : ~\E d \in dl : g[1] = ev.mbox /\ g[2] = d[1]}
                   \cup {<<ev.mbox, d[1], d[2], d[3]>> : d \in dl}
            bad == UNION {c01[s].bad : s \in DOMAIN post.ss}
+                  \cup UNION {c04f[s].bad : s \in DOMAIN post.ss}
                   \cup C0203_Step(pre, ev, post)
                   \cup C02_Vv(pre, ev, post, vvh)
                   \cup C03_Rename(pre, ev, post)
@@ -69,6 +75,7 @@ Next ==
                   \cup C13_Announced(pre, ev, post)
                   \cup C12_Step(pre, ev, post)
        IN /\ view' = [s \in DOMAIN post.ss |-> c01[s].v]
+          /\ fv' = [s \in DOMAIN post.ss |-> c04f[s].fv]
           /\ vvh' = VvHist(post, vvh)
           /\ agent' = ag2
           /\ \A c \in bad : PrintT(<<"VIOL", tid, l, ev.act, c>>)
@@ -76,5 +83,5 @@ Next ==
     /\ l' = l + 1
     /\ UNCHANGED tid
 
-Spec == Init /\ [][Next]_<<tid, l, view, vvh, agent>>
+Spec == Init /\ [][Next]_<<tid, l, view, vvh, agent, fv>>
 =============================================================================
